@@ -187,3 +187,37 @@ Proof.
   - rewrite cut_out_seq_unfold, check_time_ok, check_start_end_err by lia. reflexivity.
   - rewrite cut_out_sim_unfold, check_time_ok, check_start_end_err by lia. reflexivity.
 Qed.
+
+(* ---- how a missed leaf is treated *)
+Lemma leaf_cut_out_ok d s en : 0 <= s -> s < en -> s < d -> leaf_cut_out d s en = Ok (Z.min en d - s).
+Proof.
+  intros. unfold leaf_cut_out. rewrite check_time_ok, check_start_end_strict_ok by lia. cbn [bind].
+  destruct (0 <? s) eqn:?, (en <? d) eqn:?;
+  match goal with |- context [if ?c then _ else _] => destruct c eqn:? end; try lia; f_equal; lia.
+Qed.
+Lemma leaf_cut_out_missed d s en : 0 <= d -> 0 <= s -> s < en -> d <= s -> leaf_cut_out d s en = Err EInvalidCutOut.
+Proof.
+  intros. unfold leaf_cut_out. rewrite check_time_ok, check_start_end_strict_ok by lia. cbn [bind].
+  destruct (0 <? s) eqn:?, (en <? d) eqn:?;
+  match goal with |- context [if ?c then _ else _] => destruct c eqn:? end; try lia; reflexivity.
+Qed.
+Theorem cutout_leaf_missed_rejected : forall d l s en, 0 <= d -> 0 <= s -> s < en -> d <= s ->
+  cut_out (Leaf d l) s en = Err EInvalidCutOut /\
+  forall m, cut_out (Sim m [Leaf d l]) s en = Err EInvalidCutOut.
+Proof.
+  intros d l s en Hd Hs Hse Hds. assert (H : cut_out (Leaf d l) s en = Err EInvalidCutOut).
+  { cbn [cut_out]. rewrite leaf_cut_out_missed by lia. reflexivity. }
+  split; [exact H|]. intros m. rewrite cut_out_sim_ok by lia. rewrite co_sim_cons, H. reflexivity.
+Qed.
+Theorem cutout_leaf_missed_in_sequence_removed : forall m d l d2 l2 s en, 0 < d -> 0 < d2 -> d <= s -> s < en -> en <= d + d2 ->
+  cut_out (Seq m [Leaf d l; Leaf d2 l2]) s en = Ok (Seq m [Leaf (en - s) l2]).
+Proof.
+  intros m d l d2 l2 s en Hd Hd2 Hds Hse Hen. rewrite cut_out_seq_ok by lia.
+  rewrite co_seq_cons. cbn [dur].
+  destruct (0 <? s) eqn:E1; [|lia]. destruct (en <? 0 + d) eqn:E2; [lia|].
+  destruct (s - 0 <? d) eqn:E3; [lia|]. destruct ((d =? 0) && (s <=? 0) && (0 <=? en)) eqn:E4; [lia|].
+  rewrite co_seq_cons. cbn [dur co_seq].
+  destruct (0 + d <? s) eqn:E5; destruct (en <? 0 + d + d2) eqn:E6;
+  match goal with |- context [if ?c then _ else _] => destruct c eqn:E7 end; try lia.
+  all: cbv beta iota; cbn [cut_out]; rewrite leaf_cut_out_ok by lia; cbn [bind]; do 4 f_equal; lia.
+Qed.
